@@ -353,7 +353,21 @@ func cmdCheck(prop, tier, only string, trace bool, logDir string, noReplay, verb
 					ok = false
 				}
 				if ok && !out.Panic && len(out.AssertFails) > 0 {
-					ok = false
+					// an assertion failing natively on a witness is a mismatch unless the engine
+					// reported that very assertion as violable on a path with these covers
+					// (witnesses are models of the path condition, not of the assertions)
+					for _, l := range out.AssertFails {
+						exp := false
+						for _, v := range r.Violations {
+							if v.Kind == "assert" && v.Label == l && subsetOf(v.Covers, w.Covers) {
+								exp = true
+								break
+							}
+						}
+						if !exp {
+							ok = false
+						}
+					}
 				}
 				if ok {
 					validated++
@@ -534,4 +548,13 @@ func trimVals(vs []CexVal) []CexVal {
 		}
 	}
 	return out
+}
+
+func subsetOf(a, b []string) bool {
+	for _, x := range a {
+		if !contains(b, x) {
+			return false
+		}
+	}
+	return true
 }
